@@ -6,6 +6,7 @@ import (
 	"os"
 	"path/filepath"
 	"sort"
+	"strconv"
 	"strings"
 	"sync"
 	"time"
@@ -96,7 +97,11 @@ func newExecutor(b *Build, par int, st *Stats) *Executor {
 func (e *Executor) run(seg *Segment, race bool) *RunOut {
 	e.sem <- struct{}{}
 	defer func() { <-e.sem }()
-	out := e.b.RunSegment(seg, RunOpts{Race: race, Timeout: 15 * time.Minute})
+	to := 15 * time.Minute
+	if v, err := strconv.Atoi(os.Getenv("VERIF_NODE_TIMEOUT_S")); err == nil && v > 0 {
+		to = time.Duration(v) * time.Second
+	}
+	out := e.b.RunSegment(seg, RunOpts{Race: race, Timeout: to})
 	e.mu.Lock()
 	e.segRuns++
 	if race {
@@ -249,13 +254,14 @@ func judge(b *Build, prop string, segIdx int, seg *Segment, out *RunOut, refs *R
 			vs = append(vs, Violation{Class: "goroutine-panic", Detail: "the process died: " + firstLine(out.Crash), Seg: segIdx, Extra: head(out.Crash, 6000)})
 			return vs, nil
 		}
-		return nil, herr("node produced no result (exit %d, timed out %v): %s", out.ExitCode, out.TimedOut, tail(out.Stderr, 3000))
+		return nil, herr("node produced no result (exit %d, timed out %v); segment saved as %s: %s", out.ExitCode, out.TimedOut, saveTrouble(seg), tail(out.Stderr, 3000))
 	}
 	r := out.Res
 	switch r.Verdict {
 	case "internal":
 		return nil, herr("simulator internal error: %s\n%s", r.Detail, head(r.Dump, 3000))
 	case "hang":
+		saveTrouble(seg)
 		return nil, herr("node made no scheduler step for a long time (spinning or non-durably blocked goroutine): %s\n%s", r.Detail, head(r.Dump, 6000))
 	case "deadlock", "deadlock-after-return":
 		vs = append(vs, Violation{Class: "deadlock", Detail: fmt.Sprintf("%s after %d steps: every goroutine is blocked and at least one call has not returned", r.Verdict, r.Steps), Seg: segIdx, Extra: head(r.Dump, 12000)})
@@ -367,6 +373,14 @@ func judge(b *Build, prop string, segIdx int, seg *Segment, out *RunOut, refs *R
 		}
 	}
 	return vs, nil
+}
+
+// saveTrouble keeps the segment that gave the harness trouble, for debugging.
+func saveTrouble(seg *Segment) string {
+	b, _ := json.Marshal(seg)
+	p := filepath.Join(replayDir(), fmt.Sprintf("harness-trouble-%d.json", seg.Seed%1000000))
+	os.WriteFile(p, b, 0o644)
+	return p
 }
 
 func short(d string) string {
